@@ -216,8 +216,39 @@ fn c10_identities(ctx: &mut Ctx) {
     ctx.set_nontrivial(s.finite() && s.lo != 0.0);
 }
 
+/// the same items behind iterator types with different `size_hint`s (shape 0..8)
+pub fn shaped<'a, T: Copy + 'a>(v: &'a [T], shape: u64) -> Box<dyn Iterator<Item = T> + 'a> {
+    match shape {
+        0 => Box::new(v.iter().copied()),
+        1 => Box::new(v.iter().copied().filter(|_| true)),
+        2 => Box::new(v.iter().copied().skip_while(|_| false)),
+        3 => Box::new(v.chunks(2).flat_map(|c| c.iter().copied())),
+        4 => {
+            let mut i = 0;
+            Box::new(std::iter::from_fn(move || {
+                let r = v.get(i).copied();
+                i += 1;
+                r
+            }))
+        }
+        5 => {
+            let m = v.len() / 2;
+            Box::new(v[..m].iter().copied().chain(v[m..].iter().copied()).filter(|_| true))
+        }
+        6 => {
+            let mut w: Vec<T> = v.to_vec();
+            w.reverse();
+            Box::new(w.into_iter().rev().take_while(|_| true))
+        }
+        _ => Box::new(v.to_vec().into_iter().filter(|_| true)),
+    }
+}
+
 fn c10_sum(ctx: &mut Ctx) {
     let kind = ctx.below(4);
+    // the shape of the iterator is an input too: exact-size slices, and adaptors whose
+    // size_hint is (0, _), unknown, or wrong-looking (filter, skip_while, flat_map, from_fn, chain ...)
+    let shape = ctx.below(8);
     let items: Vec<[u64; 4]> = ctx.items.to_vec();
     let mut dds = Vec::new();
     for it in &items {
@@ -232,11 +263,15 @@ fn c10_sum(ctx: &mut Ctx) {
     ctx.note("terms", || dds.iter().map(|d| d.show()).collect::<Vec<_>>().join(", "));
     let tfs: Vec<TwoFloat> = dds.iter().map(|d| d.tf()).collect();
     let fs: Vec<f64> = dds.iter().map(|d| d.hi).collect();
+    ctx.key_u64(shape);
+    ctx.note("iterator shape", || ["slice", "filter", "skip_while", "flat_map", "from_fn", "chain+filter", "rev+take_while", "Vec::into_iter.filter"][shape as usize].to_string());
+    let tf_refs: Vec<&TwoFloat> = tfs.iter().collect();
+    let f_refs: Vec<&f64> = fs.iter().collect();
     let got = g(|| match kind {
-        0 => tfs.iter().copied().sum::<TwoFloat>(),
-        1 => tfs.iter().sum::<TwoFloat>(),
-        2 => fs.iter().copied().sum::<TwoFloat>(),
-        _ => fs.iter().sum::<TwoFloat>(),
+        0 => shaped(&tfs, shape).sum::<TwoFloat>(),
+        1 => shaped(&tf_refs, shape).sum::<TwoFloat>(),
+        2 => shaped(&fs, shape).sum::<TwoFloat>(),
+        _ => shaped(&f_refs, shape).sum::<TwoFloat>(),
     });
     let fold = g(|| {
         let mut acc = TwoFloat::from(0.0);
@@ -438,8 +473,21 @@ fn c10_binary(ctx: &mut Ctx) {
     let sel = ctx.below(13);
     let (a, b) = if sel >= 8 {
         // moderate magnitudes for powf/hypot/atan2/log
-        let a = dd_exp(ctx, -30, 30, true);
-        let b = if ctx.chance(1, 2) { related(ctx, a, -30, 30) } else { dd_exp(ctx, -4, 4, true) };
+        // ... and the published constants themselves on either side (E as a base, PI as a leg ...)
+        let a = match maybe_constant(ctx, 4, false) {
+            Some(k) => k,
+            None => dd_exp(ctx, -30, 30, true),
+        };
+        let b = match maybe_constant(ctx, 8, false) {
+            Some(k) => k,
+            None => {
+                if ctx.chance(1, 2) && a.hi != 0.0 {
+                    related(ctx, a, -30, 30)
+                } else {
+                    dd_exp(ctx, -4, 4, true)
+                }
+            }
+        };
         (a, b)
     } else {
         pair_any(ctx)
